@@ -15,3 +15,13 @@ pub open spec fn matches_for_text(ms: Seq<WordMatch>, t: &TextRef) -> bool {
     // at most one match per word, in word order
     && (forall|a: int, b: int| 0 <= a < b < ms.len() ==> (#[trigger] ms[a]).offset < (#[trigger] ms[b]).offset)
 }
+// a match as the scoring functions need it: inside its word, small non-negative rounded-up typo count
+pub open spec fn match_ok(m: WordMatch) -> bool {
+    m.slice.0 <= m.slice.1 <= 0x4000_0000 && m.subslice.0 <= m.subslice.1 && m.subslice.1 - m.subslice.0 <= m.slice.1 - m.slice.0
+    && 0 <= ceil_of(m.typos) <= 0x4000_0000 && m.offset <= 0x4000_0000
+}
+pub open spec fn matches_ok(ms: Seq<WordMatch>) -> bool { ms.len() <= 0x10_0000 && forall|k: int| 0 <= k < ms.len() ==> match_ok(#[trigger] ms[k]) }
+// what text_match guarantees about its result (both lists)
+pub open spec fn tm_post(rtext: &TextRef, qtext: &TextRef, ret: (Vec<WordMatch>, Vec<WordMatch>)) -> bool {
+    matches_for_text(ret.0@, rtext) && matches_for_text(ret.1@, qtext) && matches_ok(ret.0@) && matches_ok(ret.1@)
+}
